@@ -349,7 +349,8 @@ def run(res, tier, seed):
     # warp_tensor on a millisecond lattice: samples on the exact bin edges (when whole ns), at the trial ends, and anywhere
     for n in range(150 if tier == "quick" else 2000):
         nb = rng.choice([2, 3, 5, 6, 7, 10, 30])
-        ep, s = [], rng.randrange(0, 50) * 10**6
+        # a third of the cases start below 0 (trials before, and straddling, t = 0: seed C08-6 rounded negative times to ns by truncation)
+        ep, s = [], (rng.randrange(0, 50) if n % 3 else rng.randrange(-400, 0)) * 10**6
         for _ in range(rng.randint(1, 3)):
             d = rng.randrange(1, 400) * (10**6 if rng.random() < 0.7 else 10**5) * (nb if rng.random() < 0.4 else 1)
             ep.append((s, s + d))
@@ -361,7 +362,7 @@ def run(res, tier, seed):
             tt.update(s_ + rng.randrange(0, (e_ - s_) // 10**5 + 1) * 10**5 for _ in range(3))
         ts = sorted(tt)
         res.evaluations += 1
-        res.count("warp_cases ms")
+        res.count("warp_cases ms" + (", trial below or across 0" if ep[0][0] < 0 else ""))
         if not all((e - s) % nb == 0 for s, e in ep):
             res.count("warp_cases num_bins does not divide")
         res.violations.extend(warp_case(nap, ts, ts[1::2] or ts, ep, nb, "ms"))
